@@ -121,6 +121,12 @@ def run(ctx):
         if len(calls) != 1 or len(rets) != 1 or rets[0].value is not calls[0]:
             ctx.viol("F2", f, f.node, "%s does not simply return %s(...)" % (name, callee.srcname), construct="search.%s body" % name)
             continue
+        # an option the public function takes under the name of one of the callee's parameters (e.g. a later added `stop`)
+        # has to be handed on under that name as well
+        exp = dict(exp)
+        for q in f.posparams:
+            if q in callee.posparams and q not in exp:
+                exp[q] = q
         check_forwarding(ctx, "F2", f, calls[0], callee, exp)
     calls = find_calls(fi, lambda c: norm(c.func) == "_findall")
     if len(calls) != 1:
